@@ -91,17 +91,30 @@ func runCheck(prop, tier, repo, verif string, overlay map[string][]byte, fn chec
 		// and the rule it targets must fire. The outcome is evidence about the checker; it never changes the verdict
 		// on /repo's tree.
 		results := selfTestResults(prop, fn, repo, verif)
-		fired := 0
+		fired, breaking, silent, benign := 0, 0, 0, 0
 		for _, rec := range results {
-			if rec["result"] == "fired" {
-				fired++
-			} else {
-				r.Note("self-test mutation %s: %s", rec["mutation"], rec["result"])
+			switch {
+			case rec["kind"] == "benign":
+				benign++
+				if rec["result"] == "silent" {
+					silent++
+				} else {
+					r.Note("self-test benign edit %s: %s", rec["mutation"], rec["result"])
+				}
+			default:
+				breaking++
+				if rec["result"] == "fired" {
+					fired++
+				} else {
+					r.Note("self-test mutation %s: %s", rec["mutation"], rec["result"])
+				}
 			}
 		}
 		r.Extra["selftest_mutations"] = results
 		r.Extra["selftest_fired"] = fired
-		r.Extra["selftest_total"] = len(results)
+		r.Extra["selftest_total"] = breaking
+		r.Extra["selftest_benign_silent"] = silent
+		r.Extra["selftest_benign_total"] = benign
 	}
 	res.code = r.Finish(meta)
 	return
